@@ -349,7 +349,15 @@ func (g *c12Gen) block(d int) jast.Node {
 				if ar >= 0 {
 					g.nfn++
 					nm := fmt.Sprintf("f%d", g.nfn)
-					b.Exprs = append(b.Exprs, &jast.Assign{Name: nm, Val: l})
+					var val jast.Node = l
+					if r.Intn(3) == 0 {
+						// parenthesised definition: the closure's defining frame is a
+						// child of this block's frame and must stay linked to it, so
+						// that bindings made here later are visible when it is called
+						g.tags["lambda-defined-in-nested-block"] = true
+						val = &jast.Block{Exprs: []jast.Node{l}}
+					}
+					b.Exprs = append(b.Exprs, &jast.Assign{Name: nm, Val: val})
 					g.fns = append(append([]string{}, g.fns...), nm)
 					g.arity[nm] = ar
 				} else {
@@ -406,12 +414,17 @@ func (g *c12Gen) hof(d int) jast.Node {
 	g.tags["recursion"] = true
 	g.nfn++
 	nm := fmt.Sprintf("rec%d", g.nfn)
+	var recl jast.Node = &jast.Lambda{Params: []string{"n"}, Body: &jast.Cond{
+		If:   &jast.Bin{Op: "<=", L: &jast.Var{Name: "n"}, R: &jast.Num{V: 1}},
+		Then: g.num(d + 2),
+		Else: &jast.Bin{Op: r.Pick("*", "+"), L: &jast.Var{Name: "n"}, R: &jast.Call{Fn: &jast.Var{Name: nm}, Args: []jast.Node{&jast.Bin{Op: "-", L: &jast.Var{Name: "n"}, R: &jast.Num{V: 1}}}}},
+	}}
+	if r.Intn(3) == 0 {
+		g.tags["recursion-through-nested-block"] = true
+		recl = &jast.Block{Exprs: []jast.Node{recl}}
+	}
 	return &jast.Block{Exprs: []jast.Node{
-		&jast.Assign{Name: nm, Val: &jast.Lambda{Params: []string{"n"}, Body: &jast.Cond{
-			If:   &jast.Bin{Op: "<=", L: &jast.Var{Name: "n"}, R: &jast.Num{V: 1}},
-			Then: g.num(d + 2),
-			Else: &jast.Bin{Op: r.Pick("*", "+"), L: &jast.Var{Name: "n"}, R: &jast.Call{Fn: &jast.Var{Name: nm}, Args: []jast.Node{&jast.Bin{Op: "-", L: &jast.Var{Name: "n"}, R: &jast.Num{V: 1}}}}},
-		}}},
+		&jast.Assign{Name: nm, Val: recl},
 		&jast.Call{Fn: &jast.Var{Name: nm}, Args: []jast.Node{&jast.Num{V: float64(r.Range(0, 8))}}},
 	}}
 }
